@@ -63,14 +63,14 @@ def norm(t):
     if h == "lstr":
         return ("str", t[1])
     if h == "idx":
-        return ("idx", norm(t[1]), norm(t[2]))
+        return ("idx", ntarget(t[1]), norm(t[2]))
     if h == "dot":
-        return ("idx", norm(t[1]), ("str", t[2]))
+        return ("idx", ntarget(t[1]), ("str", t[2]))
     if h == "call":
-        return ("call", norm(t[1]), t[2], 0) + tuple(norm(a) for a in t[4:])
+        return ("call", ntarget(t[1]), t[2], 0) + tuple(norm(a) for a in t[4:])
     if h == "paren":
         x = norm(t[1])
-        return ("paren", x) if (not isinstance(x, str) and x[0] == "call") else x
+        return ("paren", x) if multi_valued(x) else x
     if h == "tab":
         fs = []
         for f in t[2:]:
@@ -86,6 +86,16 @@ def norm(t):
     if h == "bin":
         return ("bin", t[1], norm(t[2]), norm(t[3]))
     raise ValueError(t)
+
+
+def multi_valued(x):
+    """manual 3.4.12: calls and '...' are the multi-valued expressions; parentheses around them are meaningful"""
+    return x == "etc" or (not isinstance(x, str) and x[0] == "call")
+
+
+def ntarget(t):
+    """'...' as the head of a prefix expression can only be written (...), which is a node of its own"""
+    return ("paren", "etc") if t == "etc" else norm(t)
 
 
 def gen_atom(rng):
@@ -128,7 +138,7 @@ def gen_exp(rng, depth, spell=True):
         return ("paren", gen_exp(rng, depth - 1, spell))
     if k < 84:
         x = gen_exp(rng, depth - 1, spell)
-        return ("paren", x) if (not isinstance(x, str) and x[0] == "call") else x
+        return ("paren", x) if multi_valued(x) else x
     if k < 92:
         return gen_table(rng, depth - 1, spell)
     return gen_atom(rng)
@@ -391,7 +401,7 @@ def run(tier, seed):
     if st["go_ne_im"] and not st["go_ne_s"]:
         ck.violation("implementation no longer matches the Coq model Front/Parse.v (Go≈IM/front); no property-level failure found",
                      dict(st["first_im"], kind="Go!=IM", correspondence="Go≈IM/front", differences=st["go_ne_im"],
-                          theorems_no_longer_about_this_code=["C12_parse_print", "C12_parse_print_min", "C12_error_at_first_extra_token"]),
+                          theorems_no_longer_about_this_code=["C12_parse_print", "C12_parse_print_min", "C12_error_at_first_extra_token", "C12_paren_only_truncates_multivalue"]),
                      no_input=True)
     if not ok_obl:
         ck.violation("proof obligations of C12 no longer check: " + str(ck.cov.get("obligation_failure", ""))[:300],
